@@ -5,18 +5,25 @@ The machine `Verif.Model.Store` is the spec: every difference is a VIOLATION, cl
 of the first operation whose observation differs. -/
 open Verif.Proto Verif.Model.Store
 
-def parseTy : String → Option Ty
+def parseBase : String → Option Base
   | "Int" => some .int | "String" => some .string | "Bool" => some .bool | "Integer" => some .integer
   | "ArrInt" => some .arrInt | "ArrAny" => some .arrAny | "S" => some .s | "S2" => some .s2 | "I" => some .i
   | "AnyStruct" => some .anyStruct | "R" => some .r | "R2" => some .r2 | "RI" => some .ri
   | "AnyResource" => some .anyResource | _ => none
 
+/-- a base token followed by `?`s -/
+def parseTy (s : String) : Option Ty :=
+  let cs := s.toList
+  let base := cs.reverse.dropWhile (· == '?') |>.reverse
+  (parseBase (String.ofList base)).map fun b => ⟨b, cs.length - base.length⟩
+
 def parseInts (s : String) : Option (List Int) :=
   if s.isEmpty then some [] else (s.splitOn ".").mapM String.toInt?
 
-def parseVal (s : String) : Option Val :=
-  match s.toList with
+def parseValL : List Char → Option Val
   | [] => none
+  | ['N'] => some .nil
+  | 'O' :: rest => (parseValL rest).map .some
   | c :: rest =>
     let body := String.ofList rest
     match c with
@@ -30,6 +37,8 @@ def parseVal (s : String) : Option Val :=
     | 'r' => body.toInt?.map .r
     | 'q' => body.toInt?.map .r2
     | _ => none
+
+def parseVal (s : String) : Option Val := parseValL s.toList
 
 def parseOp (s : String) : Option Op :=
   match s.splitOn "," with
@@ -47,23 +56,29 @@ def parseOp (s : String) : Option Op :=
 def parseHist (s : String) : Option (List (List Op)) :=
   (s.splitOn "|").mapM fun tx => (tx.splitOn ";").mapM parseOp
 
-def tyId : Ty → String
+def baseId : Base → String
   | .int => "Int" | .string => "String" | .bool => "Bool" | .integer => "Integer" | .arrInt => "[Int]"
   | .arrAny => "[AnyStruct]" | .s => "C.S" | .s2 => "C.S2" | .i => "{C.I}" | .anyStruct => "AnyStruct"
-  | .r => "C.R" | .r2 => "C.R2" | .ri => "{C.RI}" | .anyResource => "AnyResource"
+  | .r => "C.R" | .r2 => "C.R2" | .ri => "{C.RI}" | .anyResource => "AnyResource" | .never => "Never"
+
+/-- the type identifier (`Type.identifier`, location prefix stripped): `T?` is `(T)?` -/
+def tyId (t : Ty) : String :=
+  (List.range t.opt).foldl (fun s _ => "(" ++ s ++ ")?") (baseId t.base)
 
 def q (s : String) : String := "\"" ++ s ++ "\""
 def showInts (xs : List Int) : String := "[" ++ ", ".intercalate (xs.map toString) ++ "]"
 
-/-- the way `log` prints a value (location prefix stripped by the harness) -/
+/-- the way `log` prints a value (location prefix stripped by the harness); an optional prints as its content -/
 def showVal : Val → String
   | .int n => toString n | .str s => q s | .bool b => toString b
   | .arr xs => showInts xs | .arrAny xs => showInts xs
   | .s x => s!"C.S(x: {x})" | .s2 x => s!"C.S2(x: {x})" | .r x => s!"C.R(x: {x})" | .r2 x => s!"C.R2(x: {x})"
+  | .some v => showVal v | .nil => "nil"
 
-/-- what the generated transaction reads through a borrowed `&t` (see `storeBorrowRead` in the harness) -/
+/-- what the generated transaction reads through a borrowed `&t` (see `storeBorrowRead` in the harness;
+    `t` is never optional there: the checker rejects references to optionals) -/
 def showRef (t : Ty) (v : Val) : String :=
-  match t, v with
+  match t.base, v with
   | .int, .int n | .integer, .int n => q (toString n)
   | .string, .str s => q (s ++ "!")
   | .bool, .bool b => toString b
@@ -137,6 +152,17 @@ def splitTxObs (s : String) : String × List String :=
     (head, if body.isEmpty then [] else body.splitOn ";")
   | [] => (s, [])
 
+/-- The shape of known finding `borrow-stored-nil-as-anyresource`: Go aborts with a type mismatch at a
+    `borrow<&AnyResource>` through which the machine sees a stored `nil` (dynamic type `Never?`, `Never??`, …),
+    everything before that operation being equal.  (`check<@AnyResource>` / `load<@AnyResource>` accept the
+    same stored value: they go through `IsSubTypeOfSemaType`, borrow through `sema.IsSubType`.) -/
+def isNilAnyResBorrow (tx : List Op) (mh gh : String) (ml gl : List String) : Bool :=
+  match tx.drop gl.length, ml.drop gl.length with
+  | .borrow _ _ ⟨.anyResource, 0⟩ :: _, m :: _ =>
+    gh == "err:mismatch" && mh != gh && ml.take gl.length == gl && m.startsWith "\"(" && (m.splitOn "Never").length == 2
+      && m.endsWith ")?\""
+  | _, _ => false
+
 /-- the kind of the first operation at which Go and the machine differ -/
 def firstDiff (hist : List (List Op)) (model go : List String) : String :=
   let rec goTx : List (List Op) → List String → List String → Nat → String
@@ -149,7 +175,8 @@ def firstDiff (hist : List (List Op)) (model go : List String) : String :=
           | op :: _, _, _ => opKind op ++ "-wrong-outcome"
           | [], _, _ => "tx-wrong-outcome"
         let c := goOp tx ml gl
-        if gh.startsWith "err:internal" || gh.startsWith "err:crash" then s!"go-panic-or-internal tx{i} {c}"
+        if isNilAnyResBorrow tx mh gh ml gl then s!"borrow-stored-nil-as-anyresource tx{i}"
+        else if gh.startsWith "err:internal" || gh.startsWith "err:crash" then s!"go-panic-or-internal tx{i} {c}"
         else if mh != gh && ml == gl then
           (match tx.drop ml.length with | op :: _ => opKind op | [] => "tx") ++ s!"-wrong-outcome tx{i}"
         else s!"{c} tx{i}"
